@@ -306,6 +306,13 @@ func (s *Scope) cycleDetectedError(cycle []int) error {
 			})
 		}
 	}
+	if len(cycle) > 0 && len(path) > 0 {
+		// The search may have entered the cycle at a value group node, which
+		// is not listed: close the path on the first constructor.
+		if _, ok := s.gh.Lookup(cycle[0]).(*constructorNode); !ok {
+			path = append(path, path[0])
+		}
+	}
 	return &errCycleDetected{Path: path, scope: s}
 }
 
